@@ -60,6 +60,41 @@ fn wellformed_sweep(ctx: &mut Ctx) {
             }
         }
     }
+    if ctx.shard == 0 {
+        // small tables used by construction and validation
+        use owlchess::{CastlingSide, Color, Piece};
+        for (col, w) in [(Color::White, true), (Color::Black, false)] {
+            for (side, k, tf) in [(CastlingSide::King, MKind::CastleK, 6u8), (CastlingSide::Queen, MKind::CastleQ, 2u8)] {
+                let r = if w { 0 } else { 7 };
+                let want = Move::new(move_kind(k), cell(man(w, b'K')), coord(sq(4, r)), coord(sq(tf, r)));
+                if want != Ok(Move::from_castling(col, side)) || !Move::from_castling(col, side).is_well_formed() {
+                    ctx.violation("from_castling", &format!("tuple:{:?}:{}", k, if w { 'K' } else { 'k' }), "Move::from_castling is not the well-formed castling tuple");
+                }
+            }
+        }
+        let pieces = [(Piece::Pawn, b'P'), (Piece::King, b'K'), (Piece::Knight, b'N'), (Piece::Bishop, b'B'), (Piece::Rook, b'R'), (Piece::Queen, b'Q')];
+        for k in MKind::ALL {
+            let lk = move_kind(k);
+            let want_promo = k.promo_letter();
+            let got_promo = lk.promote().map(|p| pieces.iter().find(|x| x.0 == p).unwrap().1);
+            if got_promo != want_promo {
+                ctx.violation("movekind_promote", &format!("tuple:{:?}:-", k), "MoveKind::promote");
+            }
+            for (p, l) in pieces {
+                let want = match k {
+                    MKind::Simple => true,
+                    MKind::CastleK | MKind::CastleQ => l == b'K',
+                    _ => l == b'P',
+                };
+                if lk.matches_piece(p) != want {
+                    ctx.violation("movekind_matches_piece", &format!("tuple:{:?}:{}", k, l as char), "MoveKind::matches_piece");
+                }
+            }
+        }
+        if MoveKind::Null.matches_piece(Piece::King) || MoveKind::Null.promote().is_some() {
+            ctx.violation("movekind_matches_piece", "tuple:Null:K", "null kind matches a piece");
+        }
+    }
     ctx.eval(n);
     ctx.feature_n("wellformed_tuples_checked", n);
     ctx.feature_n("wellformed_tuples_accepted", accepted);
@@ -117,6 +152,37 @@ pub fn check_pos(ctx: &mut Ctx, mp: &MPos, b: &Board) {
         if let Some(got) = &lists[i] {
             if let Some(d) = diff_moves(got, &wants[i]) {
                 ctx.violation(&format!("semilegal_{}", gens[i].0), &case, &d);
+            }
+        }
+    }
+    // the *_into entry points fill caller-provided sinks with exactly the same moves
+    {
+        let mut v: Vec<Move> = Vec::new();
+        let mut ml = owlchess::MoveList::new();
+        let r = ctx.guard("gen_into", &case, || {
+            semilegal::gen_all_into(b, &mut v);
+            semilegal::gen_capture_into(b, &mut ml);
+            semilegal::gen_simple_into(b, &mut ml);
+            let mut np: Vec<Move> = Vec::new();
+            semilegal::gen_simple_no_promote_into(b, &mut np);
+            semilegal::gen_simple_promote_into(b, &mut np);
+            np
+        });
+        ctx.eval(1);
+        if let (Some(np), Some(all), Some(simple)) = (r, &lists[0], &lists[2]) {
+            match (lib_moves(&v), lib_moves(&ml), lib_moves(&np)) {
+                (Some(a), Some(c), Some(n)) => {
+                    if let Some(d) = diff_moves(&a, all) {
+                        ctx.violation("gen_all_into_differs_from_gen_all", &case, &d);
+                    }
+                    if let Some(d) = diff_moves(&c, all) {
+                        ctx.violation("capture_into_plus_simple_into_differs_from_gen_all", &case, &d);
+                    }
+                    if let Some(d) = diff_moves(&n, simple) {
+                        ctx.violation("nopromote_into_plus_promote_into_differs_from_gen_simple", &case, &d);
+                    }
+                }
+                _ => ctx.violation("generated_null", &case, "*_into"),
             }
         }
     }
